@@ -450,7 +450,6 @@ bool SPxBasisBase<R>::readBasis(
    if(colNames == nullptr)
    {
       int nCols = theLP->nCols();
-      std::stringstream name;
 
       spx_alloc(p_colNames);
       p_colNames = new(p_colNames) NameSet();
@@ -458,6 +457,7 @@ bool SPxBasisBase<R>::readBasis(
 
       for(int j = 0; j < nCols; ++j)
       {
+         std::stringstream name;
          name << "x" << j;
          DataKey key = theLP->colId(j);
          p_colNames->add(key, name.str().c_str());
@@ -469,7 +469,6 @@ bool SPxBasisBase<R>::readBasis(
    if(rNames == nullptr)
    {
       int nRows = theLP->nRows();
-      std::stringstream name;
 
       spx_alloc(p_rowNames);
       p_rowNames = new(p_rowNames) NameSet();
@@ -477,6 +476,7 @@ bool SPxBasisBase<R>::readBasis(
 
       for(int i = 0; i < nRows; ++i)
       {
+         std::stringstream name;
          name << "C" << i;
          DataKey key = theLP->rowId(i);
          p_rowNames->add(key, name.str().c_str());
